@@ -33,7 +33,7 @@ ALREADY TRIED in earlier rounds (do NOT repeat these or close variants of them; 
 YOUR TASK: produce TWO different, independent source changes ("mutation A" and "mutation B") to the crate, each of which
  1. BREAKS the property (there is a concrete input / sequence of calls on which the changed crate violates the property statement while the unchanged crate satisfies it),
  2. still compiles and still passes the crate's entire existing test suite unchanged (`cd {wt} && cargo test --offline` — all tests must pass with the change applied; do not edit or delete any test),
- 3. is REALISTIC and SUBTLE: the kind of slip a maintainer could make in a refactor, a performance "optimisation", a clippy-driven clean-up, a dependency-free rewrite of a helper, or a port of an upstream change — touching only a few lines — and it must need something SPECIFIC to manifest: an unusual but legal input, a particular ordering or multi-step sequence, a boundary value, a particular combination of fields, a particular game mode or format version, a particular text encoding or delivery pattern — not something that ordinary use or the first obvious input would expose at once. The two mutations must be in different functions and exercise different mechanisms. This is the EIGHTH round. New directions to consider this time: (k) an INVARIANT established at one site and relied on at another (sortedness, non-emptiness, equal buffer lengths, 'already trimmed', 'already clamped', 'already within the parse limit', 'cache is empty or current') - break the establishing site for a rare input only, or add a new caller that skips it; (l) how numbers are WRITTEN (`Display` vs `{:?}` vs `{:.n}`, exponent notation for tiny or huge values, `-0`, integers written as floats, float-to-int casts before writing) against what the number parser accepts; (m) off-by-one in a format-version or count threshold (`< 5` vs `<= 5`, `>= 128`, `> 9000`, first / last element special cases); (n) two same-typed arguments or fields swapped in one rarely exercised place (x / y, start / end, normal / addition bank, kiai / omit-first-bar-line, path point / offset), (o) a conversion chosen by type inference that silently changed (`as u8`, `as f32`, `i32::from`, `try_from(..).unwrap_or_default()`). Seventh round (earlier rounds' list above; also tried in round six: Debug-quoted file names, read caps on long lines, BOM'd &str input, budgets of rejected lines, FromStr trimming, skipped line breaks, dropped write results, from_path via lossy UTF-8, ASCII-only trims, bracketed colour names, bitwise Pos equality, curve reuse between equal-shaped sliders, mode changes without cache invalidation). Also consider (g) faults visible only through an API path other than decoding bytes (`Beatmap::from(x)` conversions, `Default` impls, `Clone` / `PartialEq` / `Hash` impls, public constructors such as `SamplePoint::new`, `HitSampleInfo::new`, `PathType::new_from_str`, `SliderEventsIter::new` reuse, lookups on hand-built `ControlPoints`), (h) rarely executed but legal branches (format versions below 5 and from 128 up, B-spline degrees, mania hold notes without a colon, catch juice-stream events in the encoder, taiko / mania scroll speeds, `SpecialStyle`, `SamplesMatchPlaybackRate`, countdown variants, storyboard lines, custom sample file names with odd characters), (i) clean-up on ERROR paths (what a rejected line, a failed conversion or an early return leaves behind), (j) numeric corners of the text codec itself (`-0`, `+5`, `1e3`, `.5`, `5.`, `0x10`, `inf`, `NaN`, leading zeros, 40-digit decimals, exponents that overflow) on every kind of number field. Previous round: the obvious single-line slips, encode_to_path truncation, repeated and split sections, foreign keys, short-write sinks, stale scratch state between curves, negative custom sample indices, dropped `Interrupted` retries, buffers sized from file metadata, recursion on long preambles and near-equal (closer than EPSILON) values have all been tried. Also consider (e) faults that only show at SCALE or at the edge of a numeric format (inputs of hundreds of thousands of lines / tokens / control points, quadratic or recursive rewrites, values next to a power of two, subnormals, signed zeros, the largest / smallest accepted number, integer-valued floats beyond 2^24 / 2^53) and (f) faults in the interplay of two features that are each exercised alone (an encoding together with a delivery pattern and a section order; a game mode together with a path type and a format version; a cached value together with an accessor that should invalidate it). Prefer (a) TWO COOPERATING SITES that each look fine alone (a helper changed in a behaviour-preserving-looking way plus a caller that now relies on the old behaviour; a constant shared by encoder and decoder changed on one side; a `Default`/`Clone`/`PartialEq`/`From` impl that disagrees with the field it feeds), (b) HISTORY-dependent faults (state carried between lines, between sections that repeat, between successive calls on the same buffers / iterator / cache, only after a particular earlier operation), (c) faults behind a RARE BUT LEGAL input shape (one game mode, one format-version range, one path type, one sample kind, one text encoding combined with one delivery pattern, a boundary value of a limit or tolerance, signed zero, a subnormal, an empty list, exactly one element, very long input), and (d) public API entry points other than the usual `from_bytes` / `encode_to_string` (`from_path`, `encode_to_path`, `decode` on a custom `BufRead`, the specialised section decoders, `SliderPath` accessors, `BorrowedCurve`, `HitObject` / `HitObjectSlider` methods, control-point lookups, `SliderEventsIter` reuse).
+ 3. is REALISTIC and SUBTLE: the kind of slip a maintainer could make in a refactor, a performance "optimisation", a clippy-driven clean-up, a dependency-free rewrite of a helper, or a port of an upstream change — touching only a few lines — and it must need something SPECIFIC to manifest: an unusual but legal input, a particular ordering or multi-step sequence, a boundary value, a particular combination of fields, a particular game mode or format version, a particular text encoding or delivery pattern — not something that ordinary use or the first obvious input would expose at once. The two mutations must be in different functions and exercise different mechanisms. This is the EIGHTH round. New directions to consider this time: (k) an INVARIANT established at one site and relied on at another (sortedness, non-emptiness, equal buffer lengths, 'already trimmed', 'already clamped', 'already within the parse limit', 'cache is empty or current') - break the establishing site for a rare input only, or add a new caller that skips it; (l) how numbers are WRITTEN (`Display` vs `{{:?}}` vs `{{:.n}}`, exponent notation for tiny or huge values, `-0`, integers written as floats, float-to-int casts before writing) against what the number parser accepts; (m) off-by-one in a format-version or count threshold (`< 5` vs `<= 5`, `>= 128`, `> 9000`, first / last element special cases); (n) two same-typed arguments or fields swapped in one rarely exercised place (x / y, start / end, normal / addition bank, kiai / omit-first-bar-line, path point / offset), (o) a conversion chosen by type inference that silently changed (`as u8`, `as f32`, `i32::from`, `try_from(..).unwrap_or_default()`). Seventh round (earlier rounds' list above; also tried in round six: Debug-quoted file names, read caps on long lines, BOM'd &str input, budgets of rejected lines, FromStr trimming, skipped line breaks, dropped write results, from_path via lossy UTF-8, ASCII-only trims, bracketed colour names, bitwise Pos equality, curve reuse between equal-shaped sliders, mode changes without cache invalidation). Also consider (g) faults visible only through an API path other than decoding bytes (`Beatmap::from(x)` conversions, `Default` impls, `Clone` / `PartialEq` / `Hash` impls, public constructors such as `SamplePoint::new`, `HitSampleInfo::new`, `PathType::new_from_str`, `SliderEventsIter::new` reuse, lookups on hand-built `ControlPoints`), (h) rarely executed but legal branches (format versions below 5 and from 128 up, B-spline degrees, mania hold notes without a colon, catch juice-stream events in the encoder, taiko / mania scroll speeds, `SpecialStyle`, `SamplesMatchPlaybackRate`, countdown variants, storyboard lines, custom sample file names with odd characters), (i) clean-up on ERROR paths (what a rejected line, a failed conversion or an early return leaves behind), (j) numeric corners of the text codec itself (`-0`, `+5`, `1e3`, `.5`, `5.`, `0x10`, `inf`, `NaN`, leading zeros, 40-digit decimals, exponents that overflow) on every kind of number field. Previous round: the obvious single-line slips, encode_to_path truncation, repeated and split sections, foreign keys, short-write sinks, stale scratch state between curves, negative custom sample indices, dropped `Interrupted` retries, buffers sized from file metadata, recursion on long preambles and near-equal (closer than EPSILON) values have all been tried. Also consider (e) faults that only show at SCALE or at the edge of a numeric format (inputs of hundreds of thousands of lines / tokens / control points, quadratic or recursive rewrites, values next to a power of two, subnormals, signed zeros, the largest / smallest accepted number, integer-valued floats beyond 2^24 / 2^53) and (f) faults in the interplay of two features that are each exercised alone (an encoding together with a delivery pattern and a section order; a game mode together with a path type and a format version; a cached value together with an accessor that should invalidate it). Prefer (a) TWO COOPERATING SITES that each look fine alone (a helper changed in a behaviour-preserving-looking way plus a caller that now relies on the old behaviour; a constant shared by encoder and decoder changed on one side; a `Default`/`Clone`/`PartialEq`/`From` impl that disagrees with the field it feeds), (b) HISTORY-dependent faults (state carried between lines, between sections that repeat, between successive calls on the same buffers / iterator / cache, only after a particular earlier operation), (c) faults behind a RARE BUT LEGAL input shape (one game mode, one format-version range, one path type, one sample kind, one text encoding combined with one delivery pattern, a boundary value of a limit or tolerance, signed zero, a subnormal, an empty list, exactly one element, very long input), and (d) public API entry points other than the usual `from_bytes` / `encode_to_string` (`from_path`, `encode_to_path`, `decode` on a custom `BufRead`, the specialised section decoders, `SliderPath` accessors, `BorrowedCurve`, `HitObject` / `HitObjectSlider` methods, control-point lookups, `SliderEventsIter` reuse).
 For each mutation also write a small DEMONSTRATION: an integration test file (e.g. tests/seed_demo_a.rs) or a small example program that FAILS with the mutation applied and PASSES on the unmodified crate; it must use only the crate's public API.
 
 Deliverables, written to {out}/ :
